@@ -80,7 +80,7 @@ InitH(k, t, md, hs) ==
 
 Init0(k, t, md) == InitH(k, t, md, "idle")
 
-Reset(k, t, md) ==
+ResetH(k, t, md, hs) ==
   /\ kind' = k /\ tr' = t /\ reqMd' = md
   /\ cctx' = "live" /\ fault' = FALSE
   /\ cSendStarted' = 0 /\ cSendOk' = {} /\ closeSend' = FALSE
@@ -88,8 +88,10 @@ Reset(k, t, md) ==
   /\ hSendStarted' = 0 /\ hSendOk' = {}
   /\ cRecvd' = <<>> /\ cRecvStarted' = 0 /\ cHdrStarted' = 0
   /\ hdrAcc' = <<>> /\ hdrSent' = "no" /\ hdrCand' = {} /\ hPend' = <<>>
-  /\ trlAcc' = <<>> /\ hState' = "idle" /\ hStatus' = NoStatus
+  /\ trlAcc' = <<>> /\ hState' = hs /\ hStatus' = NoStatus
   /\ cTerm' = NoRes /\ winddown' = FALSE /\ hSawEOF' = FALSE
+
+Reset(k, t, md) == ResetH(k, t, md, "idle")
 
 -----------------------------------------------------------------------------
 (* Derived notions used by several properties *)
